@@ -46,6 +46,34 @@ static void print_rel(const Poly_Con_Relation& r) {
             << (r.implies(Poly_Con_Relation::saturates()) ? 1 : 0) << " "
             << (r.implies(Poly_Con_Relation::strictly_intersects()) ? 1 : 0) << "\n";
 }
+// Untrusted hints for the judge: generators of the non-empty pieces  x /\ not c  (c a constraint of y), computed on
+// NNC copies so that neither operand's lazy state moves. The judge validates each one against its own pieces.
+static void diff_hints(const Polyhedron& x, const Polyhedron& y) {
+  if (x.space_dimension() != y.space_dimension() || x.topology() != y.topology()) return;
+  std::ostringstream os;
+  try {
+    unsigned d = x.space_dimension();
+    Polyhedron* xc = clone(x); Polyhedron* yc = clone(y);
+    NNC_Polyhedron base = (xc->topology() == NECESSARILY_CLOSED)
+      ? NNC_Polyhedron(static_cast<const C_Polyhedron&>(*xc)) : NNC_Polyhedron(static_cast<const NNC_Polyhedron&>(*xc));
+    const Constraint_System& cs = yc->constraints();
+    for (Constraint_System::const_iterator i = cs.begin(); i != cs.end(); ++i) {
+      Linear_Expression e(i->expression());
+      std::vector<Constraint> negs;
+      if (i->is_equality()) { negs.push_back(e < 0); negs.push_back(e > 0); }
+      else if (i->is_strict_inequality()) negs.push_back(e <= 0);
+      else negs.push_back(e < 0);
+      for (size_t k = 0; k < negs.size(); ++k) {
+        NNC_Polyhedron z(base); z.add_constraint(negs[k]);
+        if (z.is_empty()) continue;
+        os << "hint "; print_gens(os, z.generators(), d); os << "\n";
+      }
+    }
+    delete xc; delete yc;
+  } catch (...) { return; }
+  pending_extra = os.str();
+}
+
 struct PFunc {  // partial function for map_space_dimensions
   std::vector<long> m; unsigned maxc;
   PFunc() : maxc(0) {}
@@ -89,8 +117,11 @@ static void do_op(Toks& tk) {
   else if (op == "intersection_assign") x.intersection_assign(*get(tk.nextl()));
   else if (op == "poly_hull_assign") x.poly_hull_assign(*get(tk.nextl()));
   else if (op == "upper_bound_assign") x.upper_bound_assign(*get(tk.nextl()));
-  else if (op == "poly_difference_assign") x.poly_difference_assign(*get(tk.nextl()));
-  else if (op == "difference_assign") x.difference_assign(*get(tk.nextl()));
+  else if (op == "poly_difference_assign" || op == "difference_assign") {
+    const Polyhedron& y = *get(tk.nextl());
+    diff_hints(x, y);
+    if (op == "poly_difference_assign") x.poly_difference_assign(y); else x.difference_assign(y);
+  }
   else if (op == "time_elapse_assign") x.time_elapse_assign(*get(tk.nextl()));
   else if (op == "positive_time_elapse_assign") { const Polyhedron& y = *get(tk.nextl());
     if (x.topology() == NECESSARILY_CLOSED) static_cast<C_Polyhedron&>(x).positive_time_elapse_assign(y);
